@@ -651,11 +651,165 @@ pub fn panic_violation(prop: &'static str, a: &Analysis, o: &RunOutcome) -> Vec<
         return Vec::new();
     }
     let open = a.open_recs();
-    let site = open.last().map(|&i| site_of(&a.recs[i])).unwrap_or_else(|| "?".into());
+    let site = open
+        .iter()
+        .find(|&&i| a.recs[i].task as usize == o.panic_task)
+        .or(open.last())
+        .map(|&i| site_of(&a.recs[i]))
+        .unwrap_or_else(|| "?".into());
     vec![v(
         prop,
         "panic",
         &site,
         format!("the queue panicked: {}; open calls: {}", msg, open.iter().map(|&i| fmt_rec(&a.recs[i])).collect::<Vec<_>>().join("; ")),
     )]
+}
+
+// =========================================================================== C09
+
+/// Sequential engine: every return value equals the model's, nothing panics, every call returns.
+pub fn c09(a: &Analysis, o: &RunOutcome) -> Vec<Violation> {
+    let mut out = Vec::new();
+    for (class, site, msg) in &o.fin.seq_violations {
+        out.push(v("C09", class, site, msg.clone()));
+    }
+    if matches!(o.end, End::Livelock | End::Deadlock) {
+        let open = a.open_recs();
+        let site = open.last().map(|&i| site_of(&a.recs[i])).unwrap_or_else(|| "?".into());
+        out.push(v(
+            "C09",
+            "call_never_returns",
+            &site,
+            format!(
+                "single-threaded call did not return ({} after {} steps): {}",
+                o.end.name(),
+                o.stats.steps,
+                open.iter().map(|&i| fmt_rec(&a.recs[i])).collect::<Vec<_>>().join("; ")
+            ),
+        ));
+    }
+    out
+}
+
+// =========================================================================== C18
+
+pub const C18_STEP_BOUND: u32 = 2000;
+pub const C15_STEP_BOUND: u32 = 5000;
+
+/// try operations complete within a bounded number of their own steps, also when every
+/// other thread is frozen in the middle of an operation.
+pub fn c18(a: &Analysis, o: &RunOutcome) -> Vec<Violation> {
+    let mut out = Vec::new();
+    for r in a.recs.iter().filter(|r| r.solo && matches!(r.op, OpK::TrySend | OpK::TryRecv | OpK::TryRecvView)) {
+        if r.solo_blocked {
+            out.push(v("C18", "try_op_waits", &site_of(r), format!("with every other thread frozen the call blocked on a lock held by a frozen thread: {}", fmt_rec(r))));
+        } else if r.own_steps > C18_STEP_BOUND {
+            out.push(v("C18", "try_op_waits", &site_of(r), format!("the call needed {} of its own steps (bound {}) while all other threads were frozen: {}", r.own_steps, C18_STEP_BOUND, fmt_rec(r))));
+        }
+    }
+    if matches!(o.end, End::Livelock | End::Deadlock) {
+        if let Some(&i) = a.open_recs().iter().find(|&&i| matches!(a.recs[i].op, OpK::TrySend | OpK::TryRecv | OpK::TryRecvView)) {
+            let r = &a.recs[i];
+            out.push(v("C18", "try_op_waits", &site_of(r), format!("a try operation never returned ({}): {}", o.end.name(), fmt_rec(r))));
+        }
+    }
+    out
+}
+
+// =========================================================================== C15
+
+/// Sink/Stream contract. `seq` part: model mismatches of the sequential engine on futures
+/// handles; concurrent part: the C01-C03 oracles through futures handles, bounded own
+/// steps of poll / start_send in solo mode, direct methods that panic or never return.
+pub fn c15(a: &Analysis, scn: &Scenario, o: &RunOutcome) -> Vec<Violation> {
+    let mut out = Vec::new();
+    for (class, site, msg) in &o.fin.seq_violations {
+        out.push(v("C15", &format!("contract_{}", class), site, msg.clone()));
+    }
+    for r in a.recs.iter().filter(|r| r.solo && matches!(r.op, OpK::Poll | OpK::StartSend)) {
+        let class = if r.op == OpK::Poll { "poll_waits" } else { "start_send_waits" };
+        if r.solo_blocked {
+            out.push(v("C15", class, &site_of(r), format!("with every other thread frozen (none holding a lock) the call blocked: {}", fmt_rec(r))));
+        } else if r.own_steps > C15_STEP_BOUND {
+            out.push(v("C15", class, &site_of(r), format!("the call needed {} of its own steps (bound {}): {}", r.own_steps, C15_STEP_BOUND, fmt_rec(r))));
+        }
+    }
+    if scn.seq.is_some() {
+        for r in a.recs.iter().filter(|r| matches!(r.op, OpK::Poll) && r.own_steps > C15_STEP_BOUND) {
+            out.push(v("C15", "poll_waits", &site_of(r), format!("the call needed {} of its own steps (bound {}): {}", r.own_steps, C15_STEP_BOUND, fmt_rec(r))));
+        }
+    }
+    if matches!(o.end, End::Livelock | End::Deadlock) {
+        let open = a.open_recs();
+        if let Some(&i) = open.iter().find(|&&i| matches!(a.recs[i].op, OpK::Poll | OpK::StartSend)) {
+            let r = &a.recs[i];
+            let class = if r.op == OpK::Poll { "poll_waits" } else { "start_send_waits" };
+            out.push(v("C15", class, &site_of(r), format!("the call never returned ({} after {} steps): {}", o.end.name(), o.stats.steps, fmt_rec(r))));
+        } else if scn.seq.is_some() {
+            let site = open.last().map(|&i| site_of(&a.recs[i])).unwrap_or_else(|| "?".into());
+            out.push(v("C15", "call_never_returns", &site, format!("single-threaded call did not return ({})", o.end.name())));
+        } else if let Some(&i) = open.iter().find(|&&i| a.recs[i].op.is_blocking_recv()) {
+            // consumers run to the end of the stream and senders always drop: a direct
+            // blocking receive that never returns is not what the plain handle does
+            let st = stuck_info(a, o);
+            out.push(v("C15", "direct_recv_never_returns", &site_of(&a.recs[i]), st.text));
+        }
+    }
+    if a.complete && scn.seq.is_none() {
+        // same values, same order, same window as the plain handles
+        for mut x in c01(a, scn).into_iter().chain(c02(a, scn)).chain(c03(a, scn)) {
+            x.class = format!("{}_{}", x.prop, x.class);
+            x.prop = "C15";
+            out.push(x);
+        }
+    }
+    out
+}
+
+// =========================================================================== C13
+
+/// With no receivers left no send succeeds: it is refused as Disconnected (identical
+/// payload handed back), and a pending sink future resolves instead of staying parked.
+pub fn c13(a: &Analysis, scn: &Scenario, o: &RunOutcome) -> Vec<Violation> {
+    let mut out = Vec::new();
+    // the instant after which no receiver exists: every stream is gone
+    let all_gone = !a.streams.is_empty() && a.streams.values().all(|s| s.gone_ret.is_some());
+    if all_gone {
+        let t_gone = a.streams.values().map(|s| s.gone_ret.unwrap()).max().unwrap();
+        for r in a.recs.iter().filter(|r| r.op.is_send() && r.t_inv > t_gone && r.t_ret != 0) {
+            let (class, what) = match r.res {
+                Res::Disc => continue,
+                Res::Ok => ("accepted_without_receiver", "was accepted"),
+                Res::Full => ("wrong_variant", "was refused as Full instead of Disconnected"),
+                Res::NotReady => ("sink_parked_forever", "returned NotReady (the task parks although nobody is left to wake it)"),
+                _ => ("wrong_variant", "returned an unexpected result"),
+            };
+            out.push(v("C13", class, &site_of(r), format!("the last receiver was gone at t={} but a later send {}: {}", t_gone, what, fmt_rec(r))));
+            break;
+        }
+    }
+    for r in a.recs.iter().filter(|r| r.op.is_send() && r.res == Res::Disc && r.back_serial != NONE && r.back_serial != r.serial) {
+        out.push(v("C13", "wrong_variant", &site_of(r), format!("Disconnected handed back a different message: {}", fmt_rec(r))));
+    }
+    for (class, site, msg) in &o.fin.seq_violations {
+        if site == "try_send" || site == "start_send" {
+            out.push(v("C13", "wrong_variant", site, format!("{} ({})", msg, class)));
+        }
+    }
+    if matches!(o.end, End::Deadlock | End::Livelock) && scn.family == "norecv" {
+        // every send loop ends only by Disconnected: a sender that cannot finish hangs
+        let st = stuck_info(a, o);
+        if let Some(r) = st.parked.iter().find(|r| r.op == OpK::StartSend) {
+            out.push(v("C13", "sink_parked_forever", &site_of(r), st.text.clone()));
+        } else if let Some(r) = st.open.iter().find(|r| r.op.is_send()) {
+            out.push(v("C13", "send_never_fails", &site_of(r), st.text.clone()));
+        } else if all_gone {
+            // plain senders spin in their retry loop: the last completed call says how
+            let last_send = a.recs.iter().rev().find(|r| r.op.is_send() && r.t_ret != 0);
+            if let Some(r) = last_send {
+                out.push(v("C13", "wrong_variant", &site_of(r), format!("senders retry forever, last result {}: {}", r.res.name(), st.text)));
+            }
+        }
+    }
+    out
 }
